@@ -22,6 +22,31 @@ def simplified_guarded(e):
         if 'caught in a loop' in str(ex): return 'loop', str(ex)
         return 'exc', f'{type(ex).__name__}: {ex}'
 
+_CONFIRM = '''
+import sys, resource, signal
+resource.setrlimit(resource.RLIMIT_CPU, (%d, %d))
+from symx import progs
+e = progs.build(progs.parse(sys.argv[1]))
+try:
+    e.simplified
+except Exception as ex:
+    print('LOOP' if 'caught in a loop' in str(ex) else 'EXC', type(ex).__name__, str(ex)[:200]); sys.exit(0)
+print('TERMINATES')
+'''
+
+def confirm_nontermination(p, cpu_s=90):
+    '''a watchdog hit inside a loaded worker process is only a suspicion: the simplification is repeated in a fresh interpreter under a CPU-time limit
+    (RLIMIT_CPU, independent of machine load).  returns (confirmed, detail)'''
+    import subprocess
+    try:
+        r = subprocess.run([sys.executable, '-c', _CONFIRM % (cpu_s, cpu_s + 5), progs.show(p)], capture_output=True, text=True, timeout=20 * cpu_s, env=dict(os.environ))
+    except subprocess.TimeoutExpired:
+        return False, 'confirmation run did not finish (wall clock)'
+    out = r.stdout.strip()
+    if r.returncode < 0 or (r.returncode != 0 and not out): return True, f'no result after {cpu_s}s of CPU time in a fresh process (signal {-r.returncode})'
+    if out.startswith('LOOP'): return True, out
+    return False, out[:200]
+
 def replay_value(p, args):
     '''real code, real numpy: returns (reproduced, detail)'''
     e = progs.build(p)
@@ -61,6 +86,9 @@ def _work(p, minimize=True):
         res['status'] = 'illtyped'; return res
     st, es = simplified_guarded(e)
     if st in ('timeout', 'loop'):
+        ok, detail = confirm_nontermination(p)
+        if not ok:
+            res['unconfirmed'].append(f'{key}: watchdog/loop in the worker not confirmed in a fresh process ({detail})'); res['status'] = 'term_unconfirmed'; return res
         res['viol'].append((f'simplification does not terminate ({st}): {key}', dict(program=key, kind='termination', detail=str(es))))
         if minimize: c = progs.core(p, _fails_term); res['core'] = 'termination:' + progs.op_classes(c); res['core_program'] = progs.show(c)
         res['status'] = 'term'; return res
@@ -113,6 +141,9 @@ def programs(tier, seed):
     out = list(progs.CORPUS)
     d1 = [p for p, e in progs.typed(progs.depth1())]
     out += d1
+    out += list(progs.structured(2))        # targeted: structural constructor pairs over equal-length axes, multi-factor products (exhaustive at level 2)
+    if tier != 'quick':
+        s3 = list(progs.structured(3)); rng.shuffle(s3); out += s3[:80000]
     d2 = progs.depth2(d1)
     if tier == 'quick':
         d2 = [p for p in d2]
@@ -160,7 +191,7 @@ def main(argv=None):
                        'termination: observed under a %ds watchdog per program; no claim outside the family' % WATCHDOG]
     P = programs(args.tier, args.seed)
     if args.only: P = [p for p in P if p[0] != 'random' and args.only in progs.show(p)]
-    run.bounds = dict(programs=len(P), axis_lengths='1..4', depth='exhaustive depth<=1 over the constructor table, depth 2 %s, random depth<=6' % ('6000 sampled' if args.tier == 'quick' else '150000 sampled + 40000 depth-3 over the simplifier priority classes'),
+    run.bounds = dict(programs=len(P), axis_lengths='1..4', depth='exhaustive depth<=1 over the constructor table, structural constructor pairs over equal-length operands exhaustive, depth 2 %s, random depth<=6' % ('6000 sampled' if args.tier == 'quick' else '150000 sampled + 40000 depth-3 over the simplifier priority classes'),
                       max_paths=8, solver_timeout_ms=10000, watchdog_s=WATCHDOG, margin='1e-9 relative on box [-8,8] only after an exact sat')
     status = run.counters
     with harness.FuncTrace() as ft:
